@@ -63,6 +63,9 @@ func c02Event(r *rand.Rand) *mocrelay.Event {
 		Tags:      []mocrelay.Tag{},
 	}
 	nt := r.IntN(6)
+	if nt == 0 && r.IntN(2) == 0 {
+		e.Tags = nil // no tags at all, as a nil list
+	}
 	for i := 0; i < nt; i++ {
 		name := vk.Pick(r, c02U.tagNames)
 		switch r.IntN(6) {
@@ -116,6 +119,9 @@ func c02Filter(r *rand.Rand, withLimit bool) *mocrelay.ReqFilter {
 			name := vk.Pick(r, []string{"e", "p", "t", "E"})
 			f.Tags[name] = c02Sub(r, c02U.tagVals, "absent")
 		}
+	}
+	if f.Tags == nil && r.IntN(12) == 0 {
+		f.Tags = map[string][]string{} // present, without an entry: no tag condition at all
 	}
 	if r.IntN(3) == 0 {
 		f.Since = vk.Ptr(c02Time(r, 8, -1))
